@@ -208,7 +208,7 @@ BLOCK_METHODS = [
     ("zeroconf._engine", "AsyncEngine", "_async_cache_cleanup", "cleanup"),
     ("zeroconf._listener", "AsyncListener", "_respond_query", "tc.respond"),
 ]
-INTERESTING = ("async_check_service", "_async_broadcast_service", "async_request", "async_unregister_all_services",
+INTERESTING = ("async_check_service", "_async_broadcast_service", "_async_send_repeatedly", "async_request", "async_unregister_all_services",
                "async_close", "async_register_service", "async_unregister_service", "async_update_service",
                "_async_start_query_sender", "_async_setup", "_async_close")
 
